@@ -14,7 +14,11 @@ cleanup() { git -C /repo worktree remove --force "$WT" >/dev/null 2>&1; rm -rf "
 trap cleanup EXIT
 suite() { (cd "$WT" && go test -vet=off -count=1 . ./internal/... 2>&1 | grep -E '^(--- FAIL|ok|FAIL)' | grep -v seeded | sed -E 's/[ (]*[0-9.]+s\)?$//' | sort); }
 BASE="$(suite)"
-DEMO="$(ls "$SD"/*_test.go | head -1)"
+DEMO="$(ls "$SD"/*_test.go 2>/dev/null | head -1)"
+if [ -z "$DEMO" ]; then
+  # demonstrations are stored as *_test.go.txt under /verif/seeded so that Go tooling ignores them
+  T="$(ls "$SD"/*_test.go.txt | head -1)"; DEMO="$(mktemp -d)/$(basename "${T%.txt}")"; cp "$T" "$DEMO"
+fi
 DEMONAME="$(grep -oE 'func (Test[A-Za-z0-9_]+)' "$DEMO" | awk '{print $2}' | paste -sd'|')"
 RACE=""; grep -q '"property": *"C16"' "$SD/meta.json" && RACE="-race"
 cp "$DEMO" "$WT/"
